@@ -171,6 +171,60 @@ func rewriteFile(src, dst string, rewrites map[string][2]string, rewriteGo bool)
 			}
 			return true
 		})
+		// a scheduling point after every channel receive (statement forms `<-ch`, `x := <-ch`, receive cases of a
+		// select, and `range` over an expression whose name says it is a channel - there is no type information here).
+		// It only parks when the run asked for extra scheduling points (SchedConfig.YieldOnUnlock).
+		after := func() ast.Stmt {
+			return &ast.ExprStmt{X: &ast.CallExpr{Fun: &ast.SelectorExpr{X: ast.NewIdent("verifsimrt"), Sel: ast.NewIdent("AfterRecv")}}}
+		}
+		isRecv := func(st ast.Stmt) bool {
+			var e ast.Expr
+			switch v := st.(type) {
+			case *ast.ExprStmt:
+				e = v.X
+			case *ast.AssignStmt:
+				if len(v.Rhs) == 1 {
+					e = v.Rhs[0]
+				}
+			}
+			u, ok := e.(*ast.UnaryExpr)
+			return ok && u.Op == token.ARROW
+		}
+		chanName := func(e ast.Expr) bool {
+			n := strings.ToLower(exprName(e))
+			return strings.Contains(n, "chan") || strings.HasSuffix(n, ".c")
+		}
+		fix := func(list []ast.Stmt) []ast.Stmt {
+			var out []ast.Stmt
+			for _, st := range list {
+				out = append(out, st)
+				if isRecv(st) {
+					out = append(out, after())
+					usedGo = true
+				}
+			}
+			return out
+		}
+		ast.Inspect(f, func(n ast.Node) bool {
+			switch v := n.(type) {
+			case *ast.BlockStmt:
+				v.List = fix(v.List)
+			case *ast.CaseClause:
+				v.Body = fix(v.Body)
+			case *ast.CommClause:
+				v.Body = fix(v.Body)
+				if v.Comm != nil && isRecv(v.Comm) {
+					v.Body = append([]ast.Stmt{after()}, v.Body...)
+					usedGo = true
+				}
+			case *ast.RangeStmt:
+				if chanName(v.X) && v.Body != nil {
+					v.Body.List = append([]ast.Stmt{after()}, v.Body.List...)
+					usedGo = true
+				}
+			}
+			return true
+		})
 	}
 	if usedGo {
 		spec := &ast.ImportSpec{Name: ast.NewIdent("verifsimrt"), Path: &ast.BasicLit{Kind: token.STRING, Value: strconv.Quote("verifsim/simrt")}}
